@@ -54,14 +54,14 @@ def body(c):
     # wide domain: the 2^16 value space of float16 / bfloat16 (stratified in the quick tier), boundary-directed
     # float32 values, per-axis scales; judged by Trace_QNum in exact arithmetic with the tolerance of DESIGN.md 7.1
     devs = c.dev_constants(["Dev_C16_AbsmaxOverflow", "Dev_C16_F8ZeroScale", "Dev_C02_NoZeroHull"])
-    wide = c.harness("h_qnum.py", {"mode": "sym_wide", "seed": c.seed, "half_step": 16 if c.quick else 1,
-                                   "nscales": 3 if c.quick else 6, "random": 300 if c.quick else 3000}, timeout=3000)["traces"]
+    wide = c.harness("h_qnum.py", {"mode": "sym_wide", "seed": c.seed, "half_step": 32 if c.quick else 1,
+                                   "nscales": 4 if c.quick else 7, "random": 300 if c.quick else 3000}, timeout=3000)["traces"]
     wres = c.validate("Trace_QNum", wide, chunk=24, constants=devs, timeout=1500)
     c.judge(wide, wres, describe=lambda tr: {k: tr[0].get(k) for k in ("qt", "fmt", "axis", "shape", "tag", "route")})
     c.extra["wide_events"] = len(wide)
     c.extra["wide_elements"] = sum(len(t[0]["x"]) for t in wide)
     c.extra["wide_excluded_unrepresentable_grid_points"] = sum(t[0]["nonfinite_dq"] for t in wide)
-    c.extra["half_precision_values_per_format"] = 65536 // (16 if c.quick else 1)
+    c.extra["half_precision_values_per_format"] = 65536 // (32 if c.quick else 1)
     def pick(qt, fmt, lo, hi):
         for t in wide:
             if t[0]["qt"] == qt and t[0]["fmt"] == fmt:
